@@ -5,6 +5,7 @@ package conversion
 // Contracts for the verifier in /verif (comment-only file; no declarations).
 
 //@ func fixedPartition(input, fraction, output1, output2)
+//@   canary [C16.canary-partition] implies(input.len > 0, output1.at(0) == output2.at(0))
 //@   kernel
 //@   states none
 //@   noalias
